@@ -353,7 +353,7 @@ def step (ms : MState) (op : String) (args impl : List String) : MState × Pred 
           | some h =>
             if !validHandle s h then some none else
             (match h with
-            | some h => some (some (if kind == "O" && (parent.map (·.kind)) == some "B" then nameOf s h.obj else idOf s h.obj))
+            | some h => some (some (idOf s h.obj))      -- every by-entity overload goes by id (Block::deleteSource since fix 4d12a1e)
             | none => some none)
           | none => none
         else (keyOf ms how key).map some
@@ -428,7 +428,7 @@ def step (ms : MState) (op : String) (args impl : List String) : MState × Pred 
           if how == "handle" then
             (if !validHandle s th then (if h.kind == "T" then (ms, b01 false) else (ms, .err "UninitializedEntity")) else
              match th with
-             | some t => del (removeReference s h.obj h.blk (nameOf s t.obj))
+             | some t => del (removeReference s h.obj h.blk (idOf s t.obj))
              | none => (ms, b01 false))
           else del (removeReference s h.obj h.blk k)
         else if rel == "src" then
